@@ -27,6 +27,12 @@ CHECKS = {
     "C06": dict(
         text="Coq theorems: for every value 0..255 of each one-byte field, every NUL-free Unicode text that fits a frame followed by any number of NUL terminators, and every 32-bit return code, the response built by the device-side encoder is wire(id, payload), decodes through the frame codec, and the client-side decoder returns exactly the configuration (name = text before the first NUL; ACK success iff r = 0, r preserved); derived attributes of the client record follow from the type byte / flags for all 256 values. Needs the UTF-8 round-trip theorem (lib/Utf8.v). Differential: encode -> frame_decode -> decode on the real code vs model vs the configuration itself, incl. 2/3/4-byte code points and malformed payloads.",
         design="3/C06", technique="Coq proof (struct + UTF-8 round-trip lemmas; 256-value sweeps lifted) + translator-regenerated constants + differential correspondence"),
+    "C04": dict(
+        text="Coq theorems over the model of frame_stream_decode/_stream_data_get/msfmt_get/dsfmt_get with the regenerated type table: C04_payload (flags byte + any sequence of well-formed encoded samples in any channel order decodes to exactly those samples, in wire order, consuming the payload to its end), C04_any_row (any row, standard or user-defined, per its struct format), and per kind: integers exactly (8 rows, vdim 1..255), fixed-point = rn53(raw)/2^k and = raw/2^k exactly for |raw| <= 2^53, IEEE bit patterns exactly, char data never fails (arbitrary bytes) and valid UTF-8 gives its text, data-less type, metadata 1/2/4/8 -> one unsigned integer else byte tuple (mlen 0..255). Differential: random layouts incl. user formats, extremes, NaN/inf, invalid UTF-8, truncated payloads, vs independent encoder/expectation.",
+        design="3/C04", technique="Coq proof (induction over sample lists; format-string sweeps over vdim/mlen 0..255 lifted by lemma) + translator-regenerated type table + differential correspondence"),
+    "C15": dict(
+        text="Coq theorems over the model of _stream_data_encode/_stream_bytes_get: samples with neither data nor metadata are skipped, no frame iff none remain, the payload is flags 0 + encoded samples; for any row format the encoder's '<B'+format bytes are the channel byte followed by bytes the decoder's '<'+format reads back as the same canonical values with exact size (struct round-trip theorem), same for metadata (native vs '<'); composed with the C04 decode theorems. The per-kind closed-form round trip is proved for the decode side (C04) and tied on the encode side by the differential run (all 18 types, fixed-point grids, channel ids up to 254, user types). Known finding listed in known_findings.json.",
+        design="3/C15", technique="Coq proof (struct pack/unpack round-trip for every format) + translator-regenerated constants + differential correspondence"),
 }
 PENDING = {}
 
